@@ -18,25 +18,26 @@ Lv == IF rev THEN <<"E", "D", "C", "B", "A">> ELSE <<"A", "B", "C", "D", "E">>
 Kinds == {"none", "def", "super"}
 \* per level: a, b, and where b is written: "top" | "nest" | "cap" (only meaningful when both are defined)
 \* sa: super() written after the nested block (only meaningful when a calls super and b is nested in it)
-LevelChoices == {c \in [a : Kinds, b : Kinds, w : {"top", "nest", "cap"}, sa : BOOLEAN] :
+LevelChoices == {c \in [a : Kinds, b : Kinds, w : {"top", "nest", "cap"}, sa : BOOLEAN, sib : BOOLEAN] :
                    ((c.a = "none" \/ c.b = "none") => c.w = "top") /\ (c.sa => c.a = "super" /\ c.w # "top")
-                   /\ (Slim => c.b = "none")}
+                   /\ (Slim => c.b = "none") /\ (c.sib => c.w = "nest" /\ c.a # "none" /\ c.b # "none" /\ ~c.sa)}
 Init == /\ n \in 1..MaxChain /\ rev \in BOOLEAN /\ (n = 1 => ~rev)
         /\ cfg \in [1..MaxChain -> LevelChoices]
-        /\ \A i \in 1..MaxChain : i > n => cfg[i] = [a |-> "none", b |-> "none", w |-> "top", sa |-> FALSE]
+        /\ \A i \in 1..MaxChain : i > n => cfg[i] = [a |-> "none", b |-> "none", w |-> "top", sa |-> FALSE, sib |-> FALSE]
+        /\ Cardinality({i \in 1..MaxChain : cfg[i].sib}) <= 1 /\ (\A i \in 1..MaxChain : cfg[i].sib => i >= 2)      \* one child introduces the siblings
         /\ done = FALSE
 Next == ~done /\ done' = TRUE /\ UNCHANGED <<n, cfg, rev>>
 Desc(i) == [Leaf EXCEPT !.ext = IF i = 1 THEN "" ELSE Lv[i - 1], !.a = cfg[i].a, !.b = cfg[i].b,
-                        !.nest = cfg[i].w \in {"nest", "cap"}, !.cap = cfg[i].w = "cap", !.sa = cfg[i].sa]
+                        !.nest = cfg[i].w \in {"nest", "cap"}, !.cap = cfg[i].w = "cap", !.sa = cfg[i].sa, !.sib = cfg[i].sib]
 Names5 == {Lv[i] : i \in 1..5}
 T == [m \in Names5 |-> IF \E i \in 1..n : Lv[i] = m THEN Desc(CHOOSE i \in 1..n : Lv[i] = m) ELSE Absent]
 Lvls == {Lv[i] : i \in 1..n}
-InvAlgoIsDecl == done /\ Accept(T) => \A m \in Lvls, blk \in {"a", "b"} : AlgoLineage(T, m, blk) = Lineage(T, m, blk)
+InvAlgoIsDecl == done /\ Accept(T) => \A m \in Lvls, blk \in {"a", "b", "c"} : AlgoLineage(T, m, blk) = Lineage(T, m, blk)
 \* the most-derived definition is first; every further entry is reached through a super() call of the previous one
 InvLineageShape == done /\ Accept(T) => \A m \in Lvls, blk \in {"a", "b"} :
    LET lin == Lineage(T, m, blk) IN \A k \in 1..(Len(lin) - 1) : Supers(T[lin[k]], blk) /\ Defines(T[lin[k + 1]], blk)
 Emit == done => PrintT(<<"VEC", ToJson([g |-> [m \in Lvls |-> T[m]], ok |-> Accept(T), fails |-> Fails(T),
-            r |-> [m \in Lvls |-> IF Accept(T) THEN [text |-> Render(T, m), lin |-> [blk \in {"a", "b"} |-> Lineage(T, m, blk)],
+            r |-> [m \in Lvls |-> IF Accept(T) THEN [text |-> Render(T, m), lin |-> [blk \in {"a", "b", "c"} |-> Lineage(T, m, blk)],
                                                           blocks |-> [blk \in {"a", "b"} |-> RenderBlock(T, m, blk)]]
-                                   ELSE [text |-> "", lin |-> [blk \in {"a", "b"} |-> <<>>], blocks |-> [blk \in {"a", "b"} |-> ""]]]])>>)
+                                   ELSE [text |-> "", lin |-> [blk \in {"a", "b", "c"} |-> <<>>], blocks |-> [blk \in {"a", "b"} |-> ""]]]])>>)
 =============================================================================
